@@ -22,7 +22,7 @@ id,a,b,tests=sys.argv[1:5]
 try: m=json.load(open(f'/tmp/seedout/{id}/meta.json'))
 except Exception: m={}
 head=subprocess.check_output(['git','-C','/repo','log','--format=%h','-1']).decode().strip()
-out={"property":id,"summary":m.get("summary"),"needs_to_manifest":m.get("needs_to_manifest"),"files_changed":m.get("files_changed"),
+out={"property":id[:3],"seed":id,"summary":m.get("summary"),"needs_to_manifest":m.get("needs_to_manifest"),"files_changed":m.get("files_changed"),
  "author":"independent sub-agent given only the property text and a scratch worktree",
  "confirmed_by_me":{"repo_head":head,"demo_unchanged_exit":int(a),"demo_changed_exit":int(b),"test_suite":tests,
    "ran":[f"git worktree add /tmp/confirm/{id} HEAD; git apply patch.diff","PYTHONPATH=/repo/src /venv/bin/python demo.py -> exit "+a,f"PYTHONPATH=/tmp/confirm/{id}/src /venv/bin/python demo.py -> exit "+b,"full pytest suite in the changed worktree: "+tests]}}
